@@ -560,7 +560,7 @@ fn source_requires(mode: &ModeCfg) -> Vec<&'static str> {
     }
 }
 
-const REQUIRING_FILES: &[&str] = &["src/main.lua", "src/init.lua", "src/sub/init.luau", "src/index.lua", "./src/main.lua", "main.luau"];
+const REQUIRING_FILES: &[&str] = &["src/main.lua", "src/init.lua", "src/sub/init.luau", "src/index.lua", "./src/main.lua", "main.luau", "init.luau", "../init.luau", "../up.luau"];
 
 fn conversion_targets(env: &Env) -> Vec<ModeCfg> {
     let luau_plain = ModeCfg::Luau { aliases: vec![] };
@@ -652,7 +652,10 @@ fn cases(tier: Tier) -> Vec<Case> {
                         }
                         files.sort();
                         files.dedup();
-                        out.push(Case { env: env.clone(), requiring: requiring.to_string(), require: req.to_string(), files, targets: targets.clone() });
+                        // a file outside the working directory: the relative path back into it needs the name of the directory,
+                        // which lexical paths do not have, so only the resolution is judged there
+                        let targets = if requiring.starts_with("..") { vec![] } else { targets.clone() };
+                        out.push(Case { env: env.clone(), requiring: requiring.to_string(), require: req.to_string(), files, targets });
                     }
                 }
             }
@@ -664,7 +667,7 @@ fn cases(tier: Tier) -> Vec<Case> {
 pub fn run(tier: Tier) -> Report {
     let mut report = Report::new("C15", "exploration", tier);
     report.rule = "for every require-mode configuration (path with module_folder_name init / index / init.lua [thorough: mod.luau, _], luau; configuration file at the root or in cfg/; \
-        sources/aliases to a directory, to a file, to a stem; a root .luaurc alias) x requiring file {src/main.lua, src/init.lua, src/sub/init.luau, src/index.lua, ./src/main.lua, main.luau} x \
+        sources/aliases to a directory, to a file, to a stem; a root .luaurc alias) x requiring file {src/main.lua, src/init.lua, src/sub/init.luau, src/index.lua, ./src/main.lua, main.luau, init.luau, ../init.luau, ../up.luau} x \
         require string (20 relative spellings with redundant ./.. segments, extensions, trailing slashes; source/alias-prefixed, unknown, @self, absolute): EVERY subset of the documented candidate \
         files is created (each file returns its own path), with and without decoy files at the places other readings of the rules would look and with and without directories named like the \
         candidates; the requiring file is bundled and the bundle executed by the reference interpreter: it must return the marker of the first existing candidate in the documented order, or \
@@ -674,6 +677,7 @@ pub fn run(tier: Tier) -> Report {
     report.assumptions = vec![
         "files are in-memory resources (a path may be a file and a directory prefix at once, which a real file system cannot hold); path handling is lexical".to_owned(),
         "a require whose string already ends in .lua/.luau is only looked up as given (documentation lists the candidates for an extensionless example only)".to_owned(),
+        "a requiring file outside the working directory (../init.luau, ../up.luau) is judged for resolution only: the relative path from it back into the working directory needs the directory's name, which lexical in-memory paths do not have".to_owned(),
         "a `..` segment directly after a source/alias name (leaving the aliased directory) is not a redundant segment and is not judged".to_owned(),
         "precedence between darklua sources/aliases and .luaurc aliases of the same name, nested .luaurc files, and `@self` from a file that is not a module-folder file are not specified and not judged".to_owned(),
         "the roblox require mode needs a Rojo sourcemap and is outside this property's statement".to_owned(),
